@@ -108,7 +108,9 @@ class Ctx:
 
     def pool(self):
         if self._pool is None:
-            self._pool = mp.get_context("fork").Pool(NPROC)
+            # one task per forked child: every task starts from the parent's pristine module state, so a task is a
+            # self-contained deterministic unit (state cannot leak from one task into the next) and can be replayed alone
+            self._pool = mp.get_context("fork").Pool(NPROC, maxtasksperchild=1)
         return self._pool
 
     def pmap(self, func, args, chunksize=1):
